@@ -237,3 +237,12 @@ package handshake
 //@   ensures [parameters-parsed] implies(result == nil, t.Parameters != nil && called("(*TransportParameters).UnmarshalFromSessionTicket") == 1 && lastresult("(*TransportParameters).UnmarshalFromSessionTicket") == nil)
 //@   ensures [failure-keeps-ticket] implies(result != nil, t.Parameters == old(t.Parameters))
 //@   modifies t.Parameters
+
+//@ func NewCryptoSetupServer
+//@   trusted constructor of the server crypto setup (wraps crypto/tls QUICConn); newConnection is examined only up to this call (opt cutafter), so only the arguments handed over are used
+//@   ensures result != nil
+//@   modifies nothing
+//@ func NewCryptoSetupClient
+//@   trusted constructor of the client crypto setup (wraps crypto/tls QUICConn); newClientConnection is examined only up to this call (opt cutafter), so only the arguments handed over are used
+//@   ensures result != nil
+//@   modifies nothing
